@@ -7,7 +7,7 @@ Anchors (goakt, as the code is now):
                         so it travels through the dead-letter actor's SYSTEM mailbox and is accepted while stopping)
   actor/receive_context.go  Unhandled → handleReceivedError(ErrUnhandled)
   actor/remote_server.go    deliverRemoteTellMessage (receiver missing / not running / dispatch error →
-                        deadLetterRemoteMessage), enqueueCoalescedFailure, drainCoalescedFailures
+                        deadLetterRemoteMessage), enqueueCoalescedFailure, drainCoalescedFailures, publishCoalescedFailure
   actor/dead_letter.go  handleDeadletter (counter, publish, per-receiver counter), count, handlePublishDeadletters,
                         handlePostStart (resets the counters)
 
@@ -101,12 +101,7 @@ def remoteDrop (s : Sys) (sender : Option Addr) (receiver : Option Addr) (payloa
     | none => s                                -- parseForFailure failed: log and bail
     | some r => remoteDL s sender r msg cause
 
-/-- `enqueueCoalescedFailure`: dropped when shutting down or when the fan-out queue is full (see C27-F2) -/
-def batchFail (s : Sys) (msgs : List BatchMsg) : Sys :=
-  if s.shuttingDown then s else
-  if s.fq.length ≥ s.fqCap then s else { s with fq := s.fq ++ [msgs] }
-
-/-- the body of `drainCoalescedFailures` for one message -/
+/-- `publishCoalescedFailure` for one message (shared by the drain goroutine and the inline fallback) -/
 def drainMsg (s : Sys) (m : BatchMsg) : Sys :=
   match m.receiver with
   | none => s
@@ -114,6 +109,13 @@ def drainMsg (s : Sys) (m : BatchMsg) : Sys :=
     match m.payload with
     | none => s
     | some msg => remoteDL s m.sender r msg .batch
+
+/-- `enqueueCoalescedFailure` (since fix f8d2f6b): when the hand-off is not possible — the system is shutting down,
+    or the fan-out queue is full — the batch is dead-lettered INLINE on the caller's goroutine
+    (`publishCoalescedFailure`); otherwise it is handed to the drain goroutine -/
+def batchFail (s : Sys) (msgs : List BatchMsg) : Sys :=
+  if s.shuttingDown then msgs.foldl drainMsg s else
+  if s.fq.length ≥ s.fqCap then msgs.foldl drainMsg s else { s with fq := s.fq ++ [msgs] }
 
 /-- one iteration of the drain goroutine's outer loop -/
 def drain (s : Sys) : Sys :=
